@@ -686,6 +686,14 @@ func (e *cenv) call(x *CExpr) Value {
 				return s
 			}
 			return v
+		case "atiter":
+			// atiter(e): e in the state the current iteration began with (locals and heap)
+			if e.loopIter == nil {
+				cfail("atiter() is only meaningful in a loop step clause")
+			}
+			c := e.child()
+			c.st = e.loopIter
+			return c.eval(args[0])
 		case "iter":
 			// iter(e): e over the heap as it was when the current iteration began, with the locals as they are now
 			if e.loopIter == nil {
@@ -919,6 +927,12 @@ func (e *cenv) specCall(name string, args []*CExpr) Value {
 			ta = append(ta, e.asInt(v, args[i]))
 		case "Bool":
 			ta = append(ta, e.asBool(v, args[i]))
+		case "Ref":
+			pv, ok := v.(VPtr)
+			if !ok {
+				cfail("spec.%s: argument %d must be a pointer", name, i)
+			}
+			ta = append(ta, pv.ref)
 		case "lenmap":
 			h, ok := v.(cHeapArr)
 			if !ok {
@@ -948,6 +962,41 @@ func (e *cenv) specCall(name string, args []*CExpr) Value {
 		fx.tables["huffmanCodeLen"] = true
 	}
 	t := ts.App("spec."+name, sf.Result, ta...)
+	// lemmas of the function, instantiated for this application (once per term)
+	if len(sf.Lemmas) > 0 && !fx.inLemma && !fx.noLemmas {
+		if fx.lemmaDone == nil {
+			fx.lemmaDone = map[int]bool{}
+		}
+		if !fx.lemmaDone[t.id] && !t.bound {
+			fx.lemmaDone[t.id] = true
+			fx.inLemma = true
+			for _, lm := range sf.Lemmas {
+				le := &cenv{fx: fx, st: e.st, old: e.st, binds: map[string]Value{}, reach: ts.True(), params: map[string]Value{}}
+				for i, p := range sf.Params {
+					if p.Kind == "Int" {
+						le.binds[p.Name] = VInt{ta[i]}
+					}
+				}
+				func() {
+					defer func() {
+						if r := recover(); r != nil {
+							if _, ok := r.(cerr); !ok {
+								panic(r)
+							}
+						}
+					}()
+					ex, err := parseCached(lm)
+					if err != nil {
+						return
+					}
+					if b, ok := le.eval(ex).(VBool); ok {
+						fx.addFact(ts.True(), b.t)
+					}
+				}()
+			}
+			fx.inLemma = false
+		}
+	}
 	if sf.Result == SBool {
 		return VBool{t}
 	}
